@@ -54,9 +54,48 @@ IGNORED_SITES = (
 )
 
 
+def mp_int(b, i):
+    """msgpack integer at b[i]: (value, next index) or None"""
+    if i >= len(b):
+        return None
+    c = b[i]
+    if c <= 0x7f:
+        return c, i + 1
+    if c >= 0xe0:
+        return c - 256, i + 1
+    w = {0xcc: 1, 0xcd: 2, 0xce: 4, 0xcf: 8, 0xd0: 1, 0xd1: 2, 0xd2: 4, 0xd3: 8}.get(c)
+    if w is None or i + 1 + w > len(b):
+        return None
+    v = int.from_bytes(b[i + 1:i + 1 + w], "big", signed=(c >= 0xd0))
+    return v, i + 1 + w
+
+
+def frame_info(hexs):
+    """(total bytes, content length, type, seqno) of one written frame, leniently"""
+    try:
+        b = bytes.fromhex(hexs)
+    except ValueError:
+        return None
+    r = mp_int(b, 0)
+    if r is None:
+        return None
+    _, i = r
+    content = len(b) - i
+    if i >= len(b) or not (0x91 <= b[i] <= 0x9f):
+        return len(b), content, None, None
+    t = mp_int(b, i + 1)
+    if t is None:
+        return len(b), content, None, None
+    q = mp_int(b, t[1])
+    return len(b), content, t[0], (q[0] if q else None)
+
+
 class Endpoint:
     def __init__(self, ep):
         self.ep = ep
+        self.fsize = {}              # send id -> bytes of its frame (known once it has been handed to the connection)
+        self.psize = {}              # payload id of a delivered response -> its content length
+        self.psize_bad = set()       # payload ids seen with two different lengths (no size assertion then)
         self.items = ["notifier 1"]
         self.next_send = 0
         self.next_handler = 0
@@ -93,6 +132,8 @@ def nonce_nat(s):
 
 
 class Translator:
+    sizes = False   # set once Model/Replay understands the `sizes` item and `?rec`
+
     def __init__(self, lines):
         self.lines = lines
         self.eps = {0: Endpoint(0), 1: Endpoint(1)}
@@ -102,6 +143,14 @@ class Translator:
         self.actor_op = {}         # actor name -> harness caller number
         self.stats = {"actions": 0, "asserts": 0}
         self.teardown = False
+        # responses each endpoint wrote: (seqno, payload nonce) -> content length (pre-pass: the receiver's
+        # `rDeliver resp` needs the length of the frame the peer wrote)
+        self.resp_len = {0: {}, 1: {}}
+        for t in lines:
+            if t[0] == "E" and len(t) > 6 and t[3] == "wr":
+                fi = frame_info(t[5])
+                if fi and fi[2] == 1 and fi[3] is not None:
+                    self.resp_len[int(t[4])].setdefault((fi[3], nonce_nat(t[6]) if t[6] != "-" else None), set()).add(fi[1])
 
     # -- helpers
     def lookahead(self, i, pred):
@@ -162,6 +211,10 @@ class Translator:
                 self.on_trace(i, t)
         for E in self.eps.values():
             self.flush_end(E)
+            fs = ",".join("%d=%d" % kv for kv in sorted(E.fsize.items())) or "-"
+            ps = ",".join("%d=%d" % kv for kv in sorted(E.psize.items()) if kv[0] not in E.psize_bad) or "-"
+            if self.sizes:
+                E.items.insert(1, "sizes f:%s p:%s" % (fs, ps))
         return {ep: " ; ".join(E.items) for ep, E in self.eps.items()}
 
     def ep_of(self, t):
@@ -338,11 +391,24 @@ class Translator:
                 if f[3] != "resp":
                     raise Unmapped("look-up not followed by a response frame")
                 r.resp = f
-                E.act("rDeliver resp %s %d %s" % (f[4], nonce_nat(f[6]), f[7]))
+                pid = nonce_nat(f[6])
+                lens = self.resp_len[1 - E.ep].get((int(f[4]), pid if f[6] != "-" else None), set())
+                if len(lens) == 1 and E.psize.get(pid, next(iter(lens))) == next(iter(lens)):
+                    E.psize[pid] = next(iter(lens))
+                else:
+                    E.psize_bad.add(pid)   # injected / ambiguous: the length of this frame is not known
+                E.act("rDeliver resp %s %d %s" % (f[4], pid, f[7]))
+                r.resp_pid = pid
                 r.decoded = False
                 return
             if b == "callContainer.RetrieveCall#2.stmt":
                 E.act("rLookup")
+                f = getattr(r, "resp", None)
+                if f is not None and f[5] == "1" and getattr(r, "resp_pid", None) in E.psize_bad:
+                    # found, but how long the frame was is unknown: no size assertion for that caller
+                    for rr in E.g.values():
+                        if rr.kind == "caller":
+                            rr.size_unknown = True
                 return
             if b == "rpcResponseMessage.DecodeMessage#1.call:DecodeRes":
                 E.act("rDecode")
@@ -631,6 +697,25 @@ class Translator:
             self.stats["asserts"] += 1
             # the actor goroutine may go on (closer actors do not issue calls); forget the role
             E.g.pop(actor, None)
+            return
+        if k in ("wr", "wrf"):
+            E = self.eps[int(ev[1])]
+            fi = frame_info(ev[2])
+            if E.writer_cur is not None and fi:
+                E.fsize[E.writer_cur] = fi[0]
+            return
+        if k == "rec":
+            # the call record of a caller: its stored size, when the bytes of its frame are known
+            E = self.eps[int(ev[1])]
+            r = E.g.get(actor)
+            try:
+                tag = bytes.fromhex(ev[2]).decode()
+            except ValueError:
+                tag = ""
+            if self.sizes and r is not None and r.kind == "caller" and tag.startswith("Call") \
+                    and getattr(r, "x", None) in E.fsize and not getattr(r, "size_unknown", False):
+                E.act("?rec %d %s" % (r.idx, ev[3]))
+                self.stats["asserts"] += 1
             return
         if k == "sn":
             E = self.eps[int(ev[1])]
